@@ -128,7 +128,8 @@ def _viol(v, history, action):
 
 
 def _expand(task):
-    history, expected_key = task
+    history, expected_key = task[0], task[1]
+    part, nparts = (task[2], task[3]) if len(task) > 2 else (0, 1)     # the enabled actions of one state may be split over several tasks (short frontiers)
     ctx = _W["ctx"]
     check = _W["check"]
     ctx.counters = {}
@@ -146,7 +147,7 @@ def _expand(task):
                 if expected_key is not None and k != expected_key:
                     out["harness"] = "determinism: replayed key differs from key at discovery for history %r\n discovered=%r\n replayed=%r" % (history, expected_key, k)
                     return out
-                for a in check.actions(model):
+                for a in check.actions(model)[part::nparts]:
                     d0 = sh.depth
                     sh.snap()
                     try:
@@ -345,7 +346,10 @@ class Explorer:
             ntrans = 0
             chunk = max(1, min(32, len(frontier) // (self.workers * 4) or 1))
             aborted = False
-            for res in self.pool.imap_unordered(_expand, [(list(h), k) for h, k in frontier], chunksize=chunk):
+            # a short frontier would leave most workers idle: split the enabled actions of every state over several tasks (each replays the history itself)
+            nparts = 1 if len(frontier) >= self.workers * 3 else max(1, min(8, (self.workers * 3) // max(1, len(frontier))))
+            tasks = [(list(h), k, part, nparts) for h, k in frontier for part in range(nparts)]
+            for res in self.pool.imap_unordered(_expand, tasks, chunksize=chunk):
                 if res["harness"]:
                     self.stats["harness_errors"].append(res["harness"])
                     continue
